@@ -21,8 +21,8 @@
 (***************************************************************************)
 EXTENDS TraceBase, Dyadic
 
-VARIABLES l, prev, viol, nchecked
-vars == <<l, prev, viol, nchecked>>
+VARIABLES l, prev, base, viol, nchecked
+vars == <<l, prev, base, viol, nchecked>>
 
 NoPrev == [e |-> "none"]
 
@@ -50,18 +50,22 @@ SelfInvs(ev) == <<
     I("UncFloor", IsFin(ev.unc2L) => Le(OfInt(23), Mul(TenPow(11), ev.unc2L)))
   >>
 
-Init == l = 1 /\ prev = NoPrev /\ viol = << >> /\ nchecked = 0
+Init == l = 1 /\ prev = NoPrev /\ base = "" /\ viol = << >> /\ nchecked = 0
 
 TScaled ==
   /\ l <= NLines /\ TraceLog[l].e = "Scaled"
   /\ LET ev == TraceLog[l]
          ok == ev.exc = ""
-         chain == /\ prev.e = "Scaled" /\ prev.case = ev.case /\ ev.k = 2 * prev.k
+         \* the property quantifies over base points (k = 1) that are accepted and whose lightest SUSY mass is >= 300 GeV;
+         \* a family whose first members are refused (a tachyon that scaling by k lifts) has no such base point
+         validBase == ev.k = 1 /\ ok /\ Fins(ev) /\ Le(OfInt(300), ev.mmin)
+         chain == /\ prev.e = "Scaled" /\ prev.case = ev.case /\ ev.k = 2 * prev.k /\ base = ev.case
                   /\ ok /\ Fins(ev) /\ Fins(prev)
          invs == (IF ok THEN SelfInvs(ev) ELSE << >>) \o (IF chain THEN PairInvs(prev, ev) ELSE << >>)
      IN /\ viol' = viol \o Failed(invs, l, ev.sig)
         /\ nchecked' = nchecked + Len(invs)
         /\ prev' = IF ok THEN ev ELSE NoPrev
+        /\ base' = IF ev.k = 1 THEN (IF validBase THEN ev.case ELSE "") ELSE base
   /\ l' = l + 1
 
 Next == TScaled
